@@ -198,10 +198,10 @@ def proof_audit(prop):
         if not re.search(r"Print\s+Assumptions\s+%s\s*\." % re.escape(n), text):
             res["problems"].append("no Print Assumptions for " + n)
     # the property file must contain only statements closed by `exact`
-    for m in re.finditer(r"Proof\.(.*?)Qed\.", text, re.S):
-        body = m.group(1).strip()
-        if not re.fullmatch(r"exact\s+[^.]*(\.[^.\s][^.]*)*\.", body, re.S):
-            res["problems"].append("proof body in Props file is not a single `exact`: " + body[:60])
+    for m in re.finditer(r"^\s*(?:Theorem|Lemma|Corollary)\s+(\w+)(?:(?!\bProof\.).)*?Proof\.(.*?)Qed\.", text, re.S | re.M):
+        body = m.group(2).strip()
+        if not re.fullmatch(r"exact\s+\(?[\w.@' ]+\)?\s*\.", body, re.S):
+            res["problems"].append("proof of %s in Props file is not a single `exact`: %s" % (m.group(1), body[:60]))
     tmp = tempfile.mkdtemp(prefix="e57a_")
     try:
         rc, out, err = sh(["coqc", "-Q", os.path.join(COQ, "theories"), "E57",
